@@ -271,6 +271,9 @@ class Interp:
                 from poly import infeasible_rel
                 if infeasible_rel(s.lin, ("eq", lp)):
                     return []
+            import lax_model
+            if not lax_model.label_of(a) and not lax_model.label_of(b):
+                s.lin.add("eq", t_sum(a) - t_sum(b))    # equal arrays have equal sums
             # orient: larger -> smaller
             na, nb = normalise(s, a), normalise(s, b)
             if na != nb:
